@@ -59,6 +59,19 @@ def service_history(job):
     except Exception as e:
         return {'seed': seed, 'kind': kind, 'events': [], 'desc': [], 'setup_error': repr(e), 'reload': []}
     single = scheme == 'single'
+    # addresses the wallet has not created yet (a second wallet from the same master key in another database derives them):
+    # payments to them are found only by scan()
+    ahead = []
+    GAP = 4
+    if not single:
+        try:
+            sh = Wallet.create(name + '_shadow', keys=w.wif(is_private=True), network=NET, witness_type=wt,
+                               db_uri='sqlite:///' + os.path.join(d, 'shadow.sqlite'))
+            ahead = [k.address for k in sh.get_keys(number_of_keys=14)]
+            sh.session.close()
+        except Exception as e:
+            return {'seed': seed, 'kind': kind, 'events': [], 'desc': [], 'setup_error': 'shadow wallet: %r' % e, 'reload': []}
+    paid_ahead = [-1]      # highest index of `ahead` that was paid
     table = {}
     events, desc = [], []
     height = [700000]
@@ -239,6 +252,12 @@ def service_history(job):
                         what.append('own transaction mined')
                 elif rng.random() < 0.8 or forced[0] == 'pay':
                     pay = [(rng.choice(keys).address, rng.choice([20000, 150000, 1000000, 3000000])) for _ in range(rng.choice([1, 1, 2]))]
+                    if ahead and rng.random() < 0.35:
+                        # within the gap limit of the highest address paid so far
+                        i = rng.randrange(max(0, paid_ahead[0] - 1), min(len(ahead), paid_ahead[0] + GAP))
+                        pay = [(ahead[i], rng.choice([30000, 250000]))]
+                        paid_ahead[0] = max(paid_ahead[0], i)
+                        what.append('to receiving address number %d' % i)
                     if len({a for a, _ in pay}) == len(pay):
                         confirm(fund(pay))
                         what.append('payment %s' % [(a[:8], v) for a, v in pay])
@@ -273,6 +292,30 @@ def service_history(job):
                 record({'op': 'txs_update', 'rep': rep, 'prov': prov, 'confs': confs},
                        'transactions_update() provider %s%s: told %s' % (prov, (' -> ' + err) if err else '',
                                                                          [[x[0], x[1], ['tx%d:%d' % tuple(i) for i in x[2]], x[3]] for x in rep]))
+            elif r < 0.70 and ahead and not forced[0]:
+                # scan(): keys are created until GAP consecutive ones have no transactions
+                vfake.SCRIPT['p1'] = 'ok'
+                del told[:]
+                time_passes()
+                err = None
+                try:
+                    w.scan(scan_gap_limit=GAP)
+                except (WalletError, ServiceError) as e:
+                    err = repr(e)[:100]
+                addr2key = {k.address: k.id for k in w.keys() if k.address}
+                seen = {}
+                for t in told:
+                    seen[t.txid] = t
+                rep = [project(t, addr2key) for t in seen.values()]
+                confs = [[txnum(table, t.txid), height[0] - t.block_height + 1] for t in chain]
+                ev = {'op': 'txs_update', 'rep': rep, 'prov': 'ok', 'confs': confs}
+                record(ev, 'scan(scan_gap_limit=%d)%s: told %s' % (GAP, (' -> ' + err) if err else '',
+                                                                   [[x[0], x[1], ['tx%d:%d' % tuple(i) for i in x[2]], x[3]] for x in rep]))
+                # everything paid to an address of this wallet within the gap limit has been found (chain truth, default account)
+                mine = set(ahead) | {k.address for k in w.keys() if k.address}
+                spent = {(i.prev_txid.hex(), i.output_n_int) for t in chain + mempool for i in t.inputs}
+                truth = sum(int(o.value) for t in chain + mempool for o in t.outputs if o.address in mine and (t.txid, o.output_n) not in spent)
+                ev['scan_truth'] = truth
             elif r < 0.93 and keys:
                 spendable = w.utxos()
                 total = sum(u['value'] for u in spendable)
